@@ -112,7 +112,7 @@ func concurrent(run *ev.Run) {
 		desc := "concurrent: " + sc.name + ": setup " + strings.Join(sc.setup, "; ") + " then " + strings.Join(names, " || ")
 		// every scenario has its own wall-clock share; a bound that does not finish inside it is
 		// reported as capped together with the last bound that was completed
-		deadline := time.Now().Add(time.Duration(run.Pick(60, 240)) * time.Second)
+		deadline := run.DeadlineIn(time.Duration(run.Pick(60, 240)) * time.Second)
 		for b := 0; b <= bound; b++ {
 			st := vsched.Explore(vsched.Config{Name: sc.name, Bound: b, Stall: 120 * time.Second, MaxExec: run.Pick(20000, 300000), Deadline: deadline}, concBody(sc))
 			if st.Infra != "" {
